@@ -3,6 +3,46 @@
 TB = "trusted base: cattrs 24.1 / attrs 24.2 / typing behaviour restated as axioms A1-A6 (DESIGN.md E3); lsp.json is the reference"
 
 CHECKS = {
+    "C01": ("other", "DESIGN.md 3/C01",
+            "type-directed local obligations: hook decision-tree abstract interpretation (lossless/sound/supported) + folded rename/omit helpers",
+            "Round-trip safety is reduced to local obligations visible in the source (per class: wire-name bijection and null/omit rule for all 1660 attributes; per union site x alternative x world: the chosen class accepts the value and declares every key present). All are enumerated and decided statically; decides the structural part for every value of every type, not value-level numeric identity.",
+            TB),
+    "C02": ("other", "DESIGN.md 3/C02",
+            "constant folding of _to_camel_case/_to_snake_case over all names + dataflow-shape check of the unstructure factory",
+            "For every attribute the folded rename equals the metamodel property name (injective per class); generator-side inverse agrees on all names and keywords; factory wiring and never-omitted table checked. Decides the key/omission part of constructor-path serialisation for all classes.",
+            TB),
+    "C03": ("other", "DESIGN.md 3/C03",
+            "static return-type check of every hook leaf against the union it serves + folded forward-reference resolver",
+            "Every leaf of every union handler returns an instance of a member of its union (no raw dict / list of dicts outside LSPAny positions); every forward reference resolves through ALL_TYPES_MAP and the resolver visits every attrs class. Non-union positions rest on cattrs axiom A3.",
+            TB),
+    "C09": ("translation_validation", "DESIGN.md 3/C09",
+            "exhaustive static comparison of METHOD_TO_TYPES/_MESSAGE_DIRECTION/constants/ALL_TYPES_MAP with lsp.json; message_direction folded",
+            "All 95 methods x {message class, response class, params, registration options, direction, constant, envelope shape} and all registry names compared with the metamodel; decides the whole property for the committed metamodel.",
+            TB),
+    "C10": ("other", "DESIGN.md 3/C10",
+            "set comparison of _SPECIAL_PROPERTIES with the metamodel rule + constant folding of _omit/is_special_property for every attribute",
+            "The omit decision is computed statically for each of the 1660 attributes from the package's own helpers and compared with the metamodel rule; defaults and factory wiring checked. With axiom A4 this is the null-vs-omitted behaviour for every attribute.",
+            TB),
+    "C11": ("other", "DESIGN.md 3/C11",
+            "per-property static obligations (no default / range validator / bare closed enum / literal validator) + effect check for swallowing try",
+            "Each eligible property has the field-level construct that makes cattrs/attrs raise for the single-field deviation; decided per property for all of them.",
+            TB),
+    "C12": ("other", "DESIGN.md 3/C12",
+            "abstract interpretation of the validators on the comparison partition of their constants (side condition checked syntactically)",
+            "Accept set of each validator decided for ALL ints and for non-int classes; exits and messages checked; attachment to exactly the integer-typed attributes checked exhaustively.",
+            TB),
+    "C13": ("translation_validation", "DESIGN.md 3/C13",
+            "enum value multiset comparison + hook decision-tree evaluation at every enum use site",
+            "Values compared exhaustively; openness/closedness decided at every use site from the annotation form and the handler's leaf for the enum's JSON kind.",
+            TB),
+    "C15": ("other", "DESIGN.md 3/C15",
+            "configuration lint (no forbid_extra_keys) + probe-hygiene over all hook decision trees + no whole-mapping operations",
+            "Decides the three structural conditions under which an undeclared key could influence structuring; with axiom A3 this gives independence from fresh keys.",
+            TB),
+    "C20": ("other", "DESIGN.md 3/C20",
+            "abstract interpretation of the dunder methods over all weak orderings of the four field values (4^4 representatives), total_ordering derivation",
+            "Decides all pairs of positions (side condition: fields only compared), all component-equality cases of Range/Location, foreign operands, repr templates; both the committed classes and the generator's injected method sources.",
+            TB),
     "C04": ("translation_validation", "DESIGN.md 3/C04",
             "static two-way image check types.py <-> lsp.json over a normalised type IR (ast)",
             "Exhaustive static comparison of every definition and attribute of types.py with lsp.json under an independently stated mapping; decides the whole property for the committed metamodel.",
